@@ -367,7 +367,10 @@ def load_findings():
 
 
 def known_signatures(prop):
-    return {f["signature"]: f for f in load_findings() if f.get("status") == "known" and f.get("property") == prop}
+    """Listed known findings by signature. A finding is identified by its signature (monitor + history class), whichever check's
+    traces exhibit it: e.g. the C02 finding 'message with more fragments than the receiver's window' also shows in the settle
+    phase of C03's replays. The KNOWN-FINDING line names the property the finding is listed under."""
+    return {f["signature"]: f for f in load_findings() if f.get("status") == "known"}
 
 
 # --------------------------------------------------------------------------
@@ -404,7 +407,7 @@ class Verdict:
     def finish(self):
         os.makedirs(EVID, exist_ok=True)
         for sig, what in self.known_hits:
-            log("KNOWN-FINDING: property=%s %s [%s]" % (self.prop, what, sig))
+            log("KNOWN-FINDING: property=%s %s [%s]" % (sig.split("/")[0], what, sig))
         for d in self.drift[:20]:
             log("MODEL-DRIFT property=%s %s" % (self.prop, d))
         rc = 0
